@@ -353,9 +353,11 @@ type ggPoint struct {
 	bit   uint
 	key   string
 	alt   ggVal
-	sched int  // index into ggState.scheds; -1 = full reads
-	k     int  // k-th Read / Seek (1-based)
-	all   bool // run in all maxArraySize modes
+	sched int      // index into ggState.scheds; -1 = full reads
+	k     int      // k-th Read / Seek (1-based)
+	all   bool     // run in all maxArraySize modes
+	fld2  *ggField // second overwritten field of a double fault (nil = single fault)
+	val2  uint64
 }
 
 func (p *ggPoint) fieldKind(st *ggState) string {
@@ -382,7 +384,11 @@ func (p *ggPoint) describe(st *ggState) string {
 	case "trunc+short":
 		return fmt.Sprintf("truncate the %d-byte file at offset %d (%s) and serve it with short reads %v", len(st.c.img), p.off, st.where(p.off), st.scheds[p.sched])
 	case "ow":
-		return fmt.Sprintf("overwrite %s of %q at offset %d (%d bytes): %d -> %d (%#x)", p.fld.Kind, p.fld.Ctx, p.fld.Off, p.fld.Width, p.fld.Orig, p.val, p.val)
+		s := fmt.Sprintf("overwrite %s of %q at offset %d (%d bytes): %d -> %d (%#x)", p.fld.Kind, p.fld.Ctx, p.fld.Off, p.fld.Width, p.fld.Orig, p.val, p.val)
+		if p.fld2 != nil {
+			s += fmt.Sprintf(" and %s at offset %d: %d -> %#x", p.fld2.Kind, p.fld2.Off, p.fld2.Orig, p.val2)
+		}
+		return s
 	case "retype":
 		return fmt.Sprintf("store key %q with value type %s instead of its proper type (file re-assembled consistently)", p.key, ggTypeName(p.alt.T))
 	case "flip":
@@ -559,6 +565,40 @@ func (st *ggState) buildPoints(d ggDraw, tier string) {
 			st.points = append(st.points, ggPoint{kind: "ow", fld: f, off: f.Off, val: v, sched: -1, all: all})
 		}
 	}
+	// 2b. double faults: a count or length that wraps around (a backward step over the
+	// element just read) together with a huge number of key/values or tensors - each
+	// alone terminates quickly, together the decoder can be sent round for ever
+	var nkvF, ntF *ggField
+	for i := range c.fields {
+		switch c.fields[i].Kind {
+		case "nkv":
+			nkvF = &c.fields[i]
+		case "ntensors":
+			ntF = &c.fields[i]
+		}
+	}
+	for i := range c.fields {
+		f := &c.fields[i]
+		var outer *ggField
+		switch f.Kind {
+		case "arrcount", "strlen", "elemstrlen", "keylen":
+			outer = nkvF
+		case "tnamelen", "dim":
+			outer = ntF
+		}
+		if outer == nil {
+			continue
+		}
+		for _, w := range []uint64{1, 2, 4, 8} {
+			for _, j := range []uint64{1, 2, 4, 8, 16, 32} {
+				v := (^uint64(0))/w + 1 - j
+				if f.Width < 8 {
+					v &= 1<<(8*uint(f.Width)) - 1
+				}
+				st.points = append(st.points, ggPoint{kind: "ow", fld: f, off: f.Off, val: v, sched: -1, all: true, fld2: outer, val2: 1 << 62})
+			}
+		}
+	}
 	// 3. consistent re-typing of well-known keys
 	if c.fields != nil {
 		for _, kv := range c.file.KVs {
@@ -642,6 +682,13 @@ func (st *ggState) image(p *ggPoint) []byte {
 	case "ow":
 		img := append([]byte(nil), c.img...)
 		ggPutField(img, c.file.BE, *p.fld, p.val)
+		if p.fld2 != nil {
+			v2 := p.val2
+			if p.fld2.Width < 8 {
+				v2 &= 1<<(8*uint(p.fld2.Width)) - 1
+			}
+			ggPutField(img, c.file.BE, *p.fld2, v2)
+		}
 		return img
 	case "flip":
 		img := append([]byte(nil), c.img...)
